@@ -50,6 +50,9 @@ func panicChild(maskStr, dm string) {
 	if err != nil {
 		os.Exit(3)
 	}
+	if !startupSawReplies(vx, caps) {
+		os.Exit(5) // start-up disturbed (see session): the parent starts another child
+	}
 	c, kf, ucs, app := vx.VerifCaps()
 	env := []byte{b01(c["kittyKeyboard"]), b01(c["sixels"]), b01(c["unicodeCore"]), b01(c["explicitWidth"]), b01(c["colorThemeUpdates"]),
 		b01(c["inBandResize"]), b01(c["osc176"]), b01(c["synchronizedUpdate"]), b01(c["disableMouse"])}
@@ -67,8 +70,8 @@ func panicChild(maskStr, dm string) {
 	out.Flush()
 	mu.Unlock()
 	vx.VerifInjectSequence(ansi.CSI{Final: 't', Parameters: [][]int{{}, {}, {}}})
-	time.Sleep(2 * time.Second) // the re-panic ends the process long before this
-	os.Exit(4)                  // the input goroutine did not die: no panic happened
+	time.Sleep(10 * time.Second) // failure timeout only: the re-panic ends the process long before this
+	os.Exit(4)                   // the input goroutine did not die: no panic happened
 }
 
 // capability bits of fakeconsole.CapNames that matter for start-up / shutdown
@@ -91,6 +94,26 @@ func origVals(caps fakeconsole.Caps) string {
 
 var appIDs = []string{"myapp", "other.app", "fakeapp", "é-term", "a;b", ""}
 var shapes = []vaxis.MouseShape{vaxis.MouseShapeClickable, vaxis.MouseShapeDefault, vaxis.MouseShapeTextInput, vaxis.MouseShape("crosshair")}
+
+// startupSawReplies: what Vaxis stored during start-up is what the fake terminal is configured to
+// answer (cursor style of the DECRPSS reply, application id of the OSC 176 reply, and the capability
+// flags that decide what start-up enables).
+func startupSawReplies(vx *vaxis.Vaxis, caps fakeconsole.Caps) bool {
+	c, _, ucs, app := vx.VerifCaps()
+	want := caps.CursorStyle
+	if want < 0 {
+		want = 0
+	}
+	if ucs != want {
+		return false
+	}
+	if caps.Osc176 != c["osc176"] || (caps.Osc176 && app != "fakeapp") {
+		return false
+	}
+	return caps.KittyKeyboard == c["kittyKeyboard"] && caps.Sixel == c["sixels"] && caps.UnicodeCore == c["unicodeCore"] &&
+		caps.ExplicitWidth == c["explicitWidth"] && caps.ColorTheme == c["colorThemeUpdates"] && caps.InBandResize == c["inBandResize"] &&
+		caps.Sync == c["synchronizedUpdate"]
+}
 
 func b01(b bool) byte {
 	if b {
@@ -149,9 +172,34 @@ func session(r *hx.Run, rng *gen.Rng, id string, sub uint32, disableMouse bool, 
 	if rng.Chance(2, 3) {
 		mask5 = 1 + rng.Intn(31)
 	}
-	vx, err := vaxis.New(vaxis.Options{WithConsole: fc, NoSignals: true, DisableMouse: disableMouse, CSIuBitMask: vaxis.CSIuBitMask(mask5)})
-	if err != nil {
-		return err
+	// Start-up must have seen the terminal's answers: Vaxis stores the cursor style and the application id
+	// from replies handled on the input goroutine (no event, nothing New waits for), and the parser's
+	// 10 ms lone-ESC timer can split a reply (ESC P …, ESC ] …) when the parser goroutine is not scheduled
+	// for that long on a loaded machine — the reply is then lost as if the terminal had not answered, and
+	// "prior value" would mean something else than what the fake terminal is configured with.  Such a
+	// start-up is not a session of this property: it is detected by a definite test (stored values =
+	// configured values), the Vaxis is closed and start-up is repeated; a session that cannot be started
+	// cleanly is reported as `incomplete` (never judged).
+	var vx *vaxis.Vaxis
+	var err error
+	for try := 0; ; try++ {
+		vx, err = vaxis.New(vaxis.Options{WithConsole: fc, NoSignals: true, DisableMouse: disableMouse, CSIuBitMask: vaxis.CSIuBitMask(mask5)})
+		if err != nil {
+			return err
+		}
+		if startupSawReplies(vx, caps) {
+			break
+		}
+		r.Count("startup-disturbed-retry")
+		within(10*time.Second, func() { vx.Close() })
+		if try >= 8 {
+			r.Count("startup-disturbed-giveup")
+			r.Case(id)
+			r.Emit("incomplete startup", "-")
+			return nil
+		}
+		fc = fakeconsole.New(12, 5, caps)
+		fc.XPix, fc.YPix = 120, 100
 	}
 	r.Case(id)
 	c, kf, ucs, app := vx.VerifCaps()
@@ -198,6 +246,21 @@ func session(r *hx.Run, rng *gen.Rng, id string, sub uint32, disableMouse bool, 
 				vx.SetTitle("title " + fmt.Sprint(rng.Intn(100)))
 				r.Count("settitle")
 			}
+			// round 3: the other direct writes an application makes between frames
+			switch rng.Intn(8) {
+			case 0:
+				vx.Notify("", "body "+fmt.Sprint(rng.Intn(100))) // OSC 9
+				r.Count("notify-osc9")
+			case 1:
+				vx.Notify("title", "body; with ; semicolons") // OSC 777
+				r.Count("notify-osc777")
+			case 2:
+				vx.ClipboardPush(gen.Pick(rng, []string{"", "clip", "\x1b]0;x\x07", "äöü"})) // OSC 52
+				r.Count("clipboardpush")
+			case 3:
+				vx.Bell()
+				r.Count("bell")
+			}
 			vx.Render()
 			clv = cnv
 			drain(vx)
@@ -221,7 +284,7 @@ func session(r *hx.Run, rng *gen.Rng, id string, sub uint32, disableMouse bool, 
 		}
 	}
 	doClose := func() {
-		ok := within(3*time.Second, func() { vx.Close() })
+		ok := within(10*time.Second, func() { vx.Close() })
 		if !ok {
 			r.Emit(fmt.Sprintf("close %d %d %d %d %d %d", bi(cnv), bi(clv), bi(closed), crow, ccol, cstyle), "hang")
 			r.Count("close-hang")
@@ -250,7 +313,7 @@ func session(r *hx.Run, rng *gen.Rng, id string, sub uint32, disableMouse bool, 
 		frames(1 + rng.Intn(3))
 		for k := rng.Intn(3); k >= 0; k-- {
 			pending()
-			if !within(3*time.Second, func() { vx.Suspend() }) {
+			if !within(10*time.Second, func() { vx.Suspend() }) {
 				r.Emit(fmt.Sprintf("suspend %d %d %d %d %d", bi(cnv), bi(clv), crow, ccol, cstyle), "hang")
 				return nil
 			}
@@ -267,12 +330,22 @@ func session(r *hx.Run, rng *gen.Rng, id string, sub uint32, disableMouse bool, 
 			frames(rng.Intn(3))
 		}
 		pending()
+		// round 3 (F53 repaired): Close while the event queue is full, nobody receives and input is
+		// pending — the input goroutine is blocked in a post, the parser's channel is full
+		if rng.Chance(1, 3) {
+			for i := 0; i < 1100 && len(vx.Events()) < cap(vx.Events()); i++ {
+				vx.PostEvent(vaxis.Redraw{})
+			}
+			fc.InjectString(strings.Repeat("k", 4+rng.Intn(8)))
+			time.Sleep(time.Millisecond)
+			r.Count("close-with-full-queue-and-input-pending")
+		}
 		doClose()
 		doClose() // a second Close is harmless
 	case 3:
 		// the application exits while suspended: Suspend, then Close without Resume
 		frames(1)
-		if !within(3*time.Second, func() { vx.Suspend() }) {
+		if !within(10*time.Second, func() { vx.Suspend() }) {
 			r.Emit(fmt.Sprintf("suspend %d %d %d %d %d", bi(cnv), bi(clv), crow, ccol, cstyle), "hang")
 			return nil
 		}
@@ -280,7 +353,7 @@ func session(r *hx.Run, rng *gen.Rng, id string, sub uint32, disableMouse bool, 
 		cnv = false
 		if rng.Chance(1, 2) {
 			// Suspend while suspended: returns at once, writes nothing
-			if !within(1500*time.Millisecond, func() { vx.Suspend() }) {
+			if !within(10*time.Second, func() { vx.Suspend() }) {
 				r.Emit(fmt.Sprintf("suspend %d %d %d %d %d", bi(cnv), bi(clv), crow, ccol, cstyle), "hang")
 				return nil
 			}
@@ -291,7 +364,7 @@ func session(r *hx.Run, rng *gen.Rng, id string, sub uint32, disableMouse bool, 
 			r.Emit(fmt.Sprintf("suspend %d %d %d %d %d", bi(cnv), bi(clv), crow, ccol, cstyle), hx.Hex(string(fc.Take())))
 			r.Count("suspend-while-suspended")
 		}
-		ok := within(1500*time.Millisecond, func() { vx.Close() })
+		ok := within(10*time.Second, func() { vx.Close() })
 		if !ok {
 			r.Emit("closesuspended", "hang")
 			r.Count("close-while-suspended-hang")
@@ -307,9 +380,15 @@ func session(r *hx.Run, rng *gen.Rng, id string, sub uint32, disableMouse bool, 
 		// handled by panicSession (child process)
 	case 2:
 		frames(1 + rng.Intn(3))
+		// round 3 (F13 repaired): input pending when the signal arrives — Close then runs on the input
+		// goroutine while the parser's channel is full; the terminal must be restored all the same
+		if rng.Chance(1, 2) {
+			fc.InjectString(strings.Repeat("k", 2+rng.Intn(8)))
+			r.Count("signal-with-input-pending")
+		}
 		// Close triggered by a termination signal: runs on the input goroutine
 		vx.VerifSignalKill()
-		deadline := time.Now().Add(3 * time.Second)
+		deadline := time.Now().Add(10 * time.Second)
 		for fc.CloseCalls == 0 && time.Now().Before(deadline) {
 			time.Sleep(200 * time.Microsecond)
 		}
@@ -326,13 +405,27 @@ func session(r *hx.Run, rng *gen.Rng, id string, sub uint32, disableMouse bool, 
 
 // panicSession: the library's own input goroutine panics (child process, see panicChild).
 func panicSession(r *hx.Run, id string, mask uint32, dm bool) error {
-	cmd := exec.Command(os.Args[0], "-panicchild", fmt.Sprint(mask), map[bool]string{true: "1", false: "0"}[dm])
 	var stdout bytes.Buffer
-	cmd.Stdout = &stdout
-	err := cmd.Run()
 	code := 0
-	if ee, ok := err.(*exec.ExitError); ok {
-		code = ee.ExitCode()
+	for try := 0; try < 6; try++ {
+		cmd := exec.Command(os.Args[0], "-panicchild", fmt.Sprint(mask), map[bool]string{true: "1", false: "0"}[dm])
+		stdout.Reset()
+		cmd.Stdout = &stdout
+		err := cmd.Run()
+		code = 0
+		if ee, ok := err.(*exec.ExitError); ok {
+			code = ee.ExitCode()
+		}
+		if code != 5 {
+			break
+		}
+		r.Count("startup-disturbed-retry")
+	}
+	if code == 5 {
+		r.Count("startup-disturbed-giveup")
+		r.Case(id)
+		r.Emit("incomplete startup", "-")
+		return nil
 	}
 	var env string
 	var before, after []string
